@@ -14,7 +14,7 @@ def run(ctx):
         "must agree with it on every row the statement does not exempt: same constructor (get_evm) with block number = the next "
         "block height unless the request names one; the same set of TxEnv fields assigned; caller/kind/data from the TxInfo's "
         "from/to/data; nonce from the sender's current account nonce (advanced per call in the multi variant); the spec and the "
-        "precompile provider come from get_evm in all three. Exempted rows (timestamp, prevrandao, gas limit, current txid) are "
+        "precompile provider come from get_evm in all three. Exempted rows (timestamp, prevrandao, current txid; the per-transaction gas limit differs by design, the block gas limit must agree) are "
         "listed with what each path uses. Equality of results is NOT decided (revm executes replay/transact_one and "
         "inspect_tx_commit identically: A3).")
     R.trusted = ["rustc resolution/MIR (A1)", "revm's non-committing and committing entry points execute identically (A3)"]
@@ -66,8 +66,16 @@ def run(ctx):
             ok = mentions(bn, "get_next_block_height") and not mentions(bn, "get_latest_block_height")
         R.ob(ok, "SIBLING", c.where(), "SIBLING|%s|block_number" % name, "%s builds its EVM at `%s`, not at the next block height (or the requested one)" % (name, show(bn)[:80]),
              sample={"rule": "SIBLING", "site": name, "block_number": show(bn)[:80]})
+        # the *block* gas limit (GASLIMIT opcode) is not among the statement's exemptions (only remaining gas is):
+        # all three sites must hand get_evm the same block gas limit as the execution path
+        glt = show(W.strip(W.resolve(F, gg, origin(gg, c.args[names.index("gas_limit")]))))
+        rg, rc_ = ref["get_evm"][0]
+        ref_glt = show(W.strip(W.resolve(F, rg, origin(rg, rc_.args[names.index("gas_limit")]))))
+        R.ob(glt == ref_glt, "SIBLING", c.where(), "SIBLING|%s|block-gas-limit" % name,
+             "%s builds its EVM with block gas limit `%s`, the execution path with `%s`: code reading block.gaslimit behaves differently in "
+             "simulation and execution" % (name, glt[:60], ref_glt[:60]), sample={"rule": "SIBLING", "site": name, "block_gas_limit": glt[:60]})
         exempt = {}
-        for pn in ("timestamp", "block_hash", "gas_limit", "current_op_return_tx_id"):
+        for pn in ("timestamp", "block_hash", "current_op_return_tx_id"):
             exempt[pn] = show(W.resolve(F, gg, origin(gg, c.args[names.index(pn)])))[:60]
         R.samples.append({"rule": "SIBLING exempt rows", "site": name, "values": exempt})
         # db handed to get_evm is the taken database
